@@ -80,7 +80,7 @@ fn channeled(n: usize, cap: usize, policy: u8, release: u8) {
     let g = crossbeam::channel::ghost(0);
     chk!(10, g.cap == cap && g.max_len <= cap, "the subscription's queue is bounded by its capacity");
     if policy != 0 {
-        chk!(10, g.n_send == 0, "with a drop policy the forwarding never uses a blocking send: a stalled subscriber cannot stall reducing");
+        chk!(10, g.n_send_waited == 0, "with a drop policy the forwarding never waits: a stalled subscriber cannot stall reducing");
     }
     // release: unsubscribe() / store shutdown (on_unsubscribe) - both drop the sender and join
     let before = rt::now();
